@@ -73,6 +73,13 @@ def histories(arity, tier):
         h = [["Z", "X", "Y"], [("F", 1), "Z", "X", "Y"], [("F", 4), "Z", "X", "Y"], ["Z", "X", "Y", ("F", 1), "drop"], [("F", 3), "Z", "X", "Y", ("F", 2), "drop", "drop"]]
     if tier != "thorough":
         h = h[:8] if arity < 3 else h[:3]
+    # operands that have a live copy lower on the stack (made by dup / over): the word must leave the copy as it was
+    if arity == 1:
+        h += [["Y", "dup"], [("F", 2), "Y", "dup"]]
+    elif arity == 2:
+        h += [["X", "dup", "Y"], ["Y", "X", "over"], ["X", "Y", "over", "over"], [("F", 1), "X", "dup", "Y", "over", "swap"]]
+    else:
+        h += [["Z", "X", "Y", "over", "over"]]
     return h
 
 
